@@ -163,6 +163,10 @@ main(int argc, char *argv[])
 	}
 
 	fprintf(logf, "B %lld\n", (long long) OVNI_MAX_EV_BUF);
+	if (getenv("VERIF_CLOSE0")) {
+		/* a program without standard input (a daemon): the stream gets descriptor 0 */
+		close(0);
+	}
 	ovni_version_check();
 	ovni_proc_init(1, "L", 777);
 	ovni_thread_init(777);	/* the initial thread: its id is the process id */
